@@ -1,6 +1,6 @@
 (* RunHist.v -- line runner for crash histories (`hist ...`): evaluates the
    acceptance predicate of Wal/Hist.v step by step. *)
-From RW Require Import Base.Bytes Fmt.Codec Fmt.Frame Wal.Model Wal.Spec Wal.Hist Run.Wire Run.RunCodec Run.RunWal.
+From RW Require Import Base.Bytes Fmt.Codec Fmt.Frame Wal.Model Wal.Spec Wal.Hist Wal.LiveDir Run.Wire Run.RunCodec Run.RunWal.
 Open Scope N_scope.
 
 Definition parse_sop (ts : list str) : option (sop * list str) :=
@@ -143,6 +143,26 @@ Definition run_hist (ts : list str) : str :=
       match hex_to_N sz, hex_to_N cd, parse_steps (S (length r)) r with
       | Some sz, Some cd, Some steps =>
           run_steps {| c_seg_size := sz; c_codec := cd |} hist_init steps []
+      | _, _, _ => s_bad
+      end
+  | _ => s_bad
+  end.
+
+(* hdir <segsize> <codec> steps...  ->  one 0/1 per step: whenever the WAL is up after the
+   step, the directory holds exactly the files of the listed segments (Wal/LiveDir.v) *)
+Fixpoint run_dsteps (c : cfg) (h : hstate) (steps : list pstep) (acc : list N) : list N :=
+  match steps with
+  | [] => rev_append acc []
+  | p :: r => let h' := hstep_run c h (to_hstep c h p) in
+               run_dsteps c h' r ((if live_dir_ok h' then 49 else 48) :: acc)
+  end.
+
+Definition run_hdir (ts : list str) : str :=
+  match ts with
+  | sz :: cd :: r =>
+      match hex_to_N sz, hex_to_N cd, parse_steps (S (length r)) r with
+      | Some sz, Some cd, Some steps =>
+          run_dsteps {| c_seg_size := sz; c_codec := cd |} hist_init steps []
       | _, _, _ => s_bad
       end
   | _ => s_bad
